@@ -298,8 +298,145 @@ def run_latlon_topk(inst):
         shutil.rmtree(d, ignore_errors=True)
     return out
 
+LATLON_EDGE_GRID = [   # star of three edges out of node 1 (so the start node is always inside the box), query, radius in metres
+    ({1: (60.0, 10.0), 2: (60.0020, 10.0), 3: (60.0, 10.0040), 4: (59.9990, 9.9990)}, (60.0004, 10.0012), 400.0),
+    ({1: (-45.0, 170.0), 2: (-45.0, 170.0030), 3: (-45.0020, 170.0), 4: (-44.9990, 169.9990)}, (-45.0006, 170.0008), 500.0),
+    ({1: (0.0, 0.0), 2: (0.0015, 0.0), 3: (0.0, 0.0030), 4: (-0.0010, -0.0010)}, (0.0003, 0.0009), 300.0),
+    ({1: (50.87, 4.70), 2: (50.8710, 4.70), 3: (50.87, 4.7030), 4: (50.8690, 4.6990)}, (50.8702, 4.7004), 60.0),
+]
+
+
+def concrete_latlon_inmem(kind, graph, cc, loc, r, max_elmt):
+    """InMemMap(use_latlon=True) on doubles with the real trigonometry; oracle: full scan with dist_latlon's own functions."""
+    from leuvenmapmatching.map.inmem import InMemMap
+    from leuvenmapmatching.util import dist_latlon as dl
+    m = InMemMap("c11_latlon_replay", graph={n: (cc[n], list(graph[n])) for n in graph}, use_latlon=True)
+    try:
+        res = query(m, kind, loc, r, max_elmt)
+    except Exception as e:
+        return f"raised {e!r}"
+    if kind == 'nodes':
+        inside = sorted((dl.distance(loc, cc[n]), (n,)) for n in graph if dl.distance(loc, cc[n]) < r)
+        got = [(row[0], (row[1],)) for row in res]
+    else:
+        inside = sorted((dl.distance_point_to_segment(loc, cc[a], cc[b])[0], (a, b)) for a in graph for b in graph[a] if a != b)
+        inside = [x for x in inside if x[0] < r]
+        got = [(row[0], (row[1], row[3])) for row in res]
+    want = inside if max_elmt is None else inside[:max_elmt]
+    if [k for _, k in got] != [k for _, k in want] and [round(x, 6) for x, _ in got] != [round(x, 6) for x, _ in want]:
+        return f"returned {got}, but the elements within the radius are {inside}"
+    return None
+
+
+def run_latlon_inmem(inst):
+    """InMemMap(use_latlon=True).nodes_closeto / edges_closeto over symbolic stand-ins for the map's geodesic primitives (distance,
+    distance_point_to_segment, box_around_point: fresh values constrained only by distance >= 0, relative position in [0,1], box contains
+    the point; their correctness is C14's subject).  Decides the query logic on the lat-lon metric: every returned row carries the
+    primitive's own result for that element, lies within the radius, rows are sorted, at most max_elmt, and no element that passed the box
+    pre-filter (nodes: the node; edges: the start node - known finding F-C11-inmem-edges-startnode-box concerns exactly that pre-filter)
+    and lies within the radius is omitted unless max_elmt nearer ones were returned.  Counterexamples are confirmed on a grid of
+    concrete lat-lon configurations with the real trigonometry."""
+    from leuvenmapmatching.map.inmem import InMemMap
+    _, kind, budget, shape, max_elmt = inst[:5]
+    graph = SHAPES[shape][0]
+    shims.install()
+    name = f"inmem latlon {kind} {shape} max_elmt={max_elmt} (stand-ins for distance, point-to-segment and box)"
+
+    def tid(x):
+        return x.t.get_id() if E.is_sym(x) else repr(x)
+
+    def scenario():
+        eng = E.get_engine()
+        memo = {}
+        coords = {n: (eng.fresh(f"lat{n}"), eng.fresh(f"lon{n}")) for n in graph}
+        loc = (eng.fresh("qlat"), eng.fresh("qlon"))
+        r = eng.fresh("r")
+        eng.assume(r.t > 0)
+        m = InMemMap("c11ll", graph={n: (coords[n], list(graph[n])) for n in graph}, use_latlon=True)
+
+        def distance(p1, p2):
+            k = ('d', tid(p1[0]), tid(p1[1]), tid(p2[0]), tid(p2[1]))
+            if k not in memo:
+                memo[k] = eng.fresh(f"D{len(memo)}")
+                eng.assume(memo[k].t >= 0)
+            return memo[k]
+
+        def dps(p, a, b, delta=0.0, constrain=True):
+            k = ('s', tid(p[0]), tid(p[1]), tid(a[0]), tid(a[1]), tid(b[0]), tid(b[1]))
+            if k not in memo:
+                n = len(memo)
+                d, t = eng.fresh(f"S{n}"), eng.fresh(f"t{n}")
+                eng.assume(z3.And(d.t >= 0, t.t >= 0, t.t <= 1))
+                memo[k] = (d, (eng.fresh(f"pi{n}y"), eng.fresh(f"pi{n}x")), t)
+            return memo[k]
+
+        def box(p, dist_):
+            k = ('b', tid(p[0]), tid(p[1]), tid(dist_))
+            if k not in memo:
+                b = tuple(eng.fresh(f"box{len(memo)}_{i}") for i in range(4))
+                eng.assume(z3.And(b[0].t <= E.lift(p[0]), E.lift(p[0]) <= b[2].t, b[1].t <= E.lift(p[1]), E.lift(p[1]) <= b[3].t))
+                memo[k] = b
+            return memo[k]
+        m.distance, m.distance_point_to_segment, m.box_around_point = distance, dps, box
+        res = query(m, kind, loc, r, max_elmt)
+        if kind == 'nodes':
+            elems = {(n,): (distance(loc, coords[n]), n) for n in graph}
+        else:
+            elems = {(a, b): (dps(loc, coords[a], coords[b]), a) for a in graph for b in graph[a] if a != b}
+        return dict(coords=coords, loc=loc, r=r, res=res, elems=elems, bb=box(loc, r))
+
+    def claims(eng, v):
+        L = E.lift
+        res, r, bb, coords, elems = v['res'], L(v['r']), v['bb'], v['coords'], v['elems']
+        keyof = (lambda row: (row[1],)) if kind == 'nodes' else (lambda row: (row[1], row[3]))
+        got = [keyof(row) for row in res]
+        cl = [('no_duplicates_and_only_map_elements', z3.BoolVal(len(set(got)) == len(got) and all(g in elems for g in got))),
+              ('at_most_max_elmt', z3.BoolVal(max_elmt is None or len(got) <= max_elmt))]
+        if not all(g in elems for g in got):
+            return cl
+        dist = {k: (e[0] if kind == 'nodes' else e[0][0]) for k, e in elems.items()}
+        for row in res:
+            k = keyof(row)
+            cl.append((f'distance_of_{k}_is_the_map_distance_and_within_radius', z3.And(L(row[0]) == L(dist[k]), L(row[0]) < r)))
+            if kind == 'edges':
+                d, pi, ti = elems[k][0]
+                cl.append((f'projection_and_position_of_{k}_are_the_primitive_s', z3.BoolVal(same_pt(row[5], pi) and same_pt((row[6], 0), (ti, 0))
+                                                                                            and same_pt(row[2], coords[k[0]]) and same_pt(row[4], coords[k[1]]))))
+        cl.append(('sorted_by_distance', z3.And(*[L(a[0]) <= L(b[0]) for a, b in zip(res, res[1:])]) if len(res) > 1 else z3.BoolVal(True)))
+        full = max_elmt is not None and len(got) == max_elmt
+        for k, e in elems.items():
+            if k in got:
+                continue
+            c = coords[e[1]]
+            in_box = z3.And(L(c[0]) >= L(bb[0]), L(c[0]) <= L(bb[2]), L(c[1]) >= L(bb[1]), L(c[1]) <= L(bb[3]))
+            farther = z3.And(*[L(dist[k]) >= L(dist[g]) for g in got]) if full else z3.BoolVal(False)
+            cl.append((f'omitted_{k}_is_outside_or_not_among_the_nearest', z3.Or(z3.Not(in_box), L(dist[k]) >= r, farther)))
+        return cl
+
+    def confirm(eng, model, v, cname):
+        with shims.concrete():
+            grid = LATLON_GRID if kind == 'nodes' else LATLON_EDGE_GRID
+            for cc, loc, r in grid:
+                if any(n not in cc for n in graph):
+                    continue
+                cc = {n: cc[n] for n in graph}
+                bad = concrete_latlon_inmem(kind, graph, cc, loc, r, max_elmt)
+                if bad:
+                    return dict(desc=f"InMemMap(use_latlon=True).{kind}_closeto(loc={loc}, max_dist={r}, max_elmt={max_elmt}) on {cc}: {bad}",
+                                kind='latlon_inmem', query=kind, shape=shape, coords={str(k): list(p) for k, p in cc.items()}, loc=list(loc), radius=r, max_elmt=max_elmt)
+        return None
+
+    try:
+        out = runner.explore(name, runner.lra_engine(8000), scenario, claims, confirm=confirm, budget_s=budget,
+                             witness=lambda eng, v: [f'latlon_result_size_{len(v["res"])}'])
+    finally:
+        shims.uninstall()
+    return out
+
 
 def run_instance(inst):
+    if inst[0] == 'latlon_inmem':
+        return run_latlon_inmem(inst)
     if inst[0] == 'latlon_topk':
         return run_latlon_topk(inst)
     import shutil
@@ -532,6 +669,7 @@ def instances(tier):
         out += [('e1', None, lay), ('e2_bidir', None, lay)]
     out += [('e2_fan', None, 'unit'), ('e2_fan', 1, 'unit'), ('e3_fan', 2, 'fan3', 'inmem+topk'), ('e3_fan', 2, 'star3', 'inmem+topk'), ('e3_fan', 2, 'fan3', 'inmem+topk1d'), ('e3_fan', 2, 'fan3', 'sqlite+topk1d'), ('e3_fan', 1, 'long', 'inmem+topk'), ('n3', 2, 'unit', 'inmem+topk'), ('e1_selfloop', None, 'long'), ('e2_fan', 1, 'metres1e7')]
     out += [('latlon_topk', 2, 1), ('latlon_topk', 2, None), ('latlon_topk', 3, 2)]
+    out += [('latlon_inmem', 'nodes', 'n2', None), ('latlon_inmem', 'nodes', 'n3', 2), ('latlon_inmem', 'edges', 'e2_fan', None), ('latlon_inmem', 'edges', 'e3_fan', 2), ('latlon_inmem', 'edges', 'e2_bidir', 1)]
     out += [('n1', None, None, 'sqlite'), ('n2', None, None, 'sqlite'), ('n2', 1, 'metres1e7', 'sqlite'), ('n2', None, 'metres1e7', 'sqlite'), ('n3', None, 'unit', 'sqlite'), ('e1', None, 'unit', 'sqlite'),
             ('e1', None, 'long', 'sqlite'), ('e2_bidir', None, 'metres1e7', 'sqlite'), ('e2_fan', None, 'diag', 'sqlite')]
     if tier == 'thorough':
@@ -553,10 +691,10 @@ def main(tier):
     from symx.common import fit_budget
     budget = fit_budget(len(instances(tier)), tier, 150, 150)
     res = run_instances(run_instance, [i[:2] + (budget,) + i[2:] for i in instances(tier)])
-    rep.bounds = dict(backend="InMemMap without index (rtree package not installed)", metric="planar; plus SqliteMap.nodes_closeto on a lat-lon map with symbolic stand-ins for distance and box (order logic only)",
+    rep.bounds = dict(backend="InMemMap without index (rtree package not installed)", metric="planar; plus SqliteMap.nodes_closeto and InMemMap.nodes_closeto / edges_closeto on a lat-lon map with symbolic stand-ins for the geodesic primitives (query logic only)",
                       maps="nodes_closeto: <=%d nodes, all coordinates symbolic; edges_closeto: <=2 directed edges (incl. self-listed neighbour) with coordinates from the layouts %s" % (2 if tier == 'quick' else 3, sorted(LAYOUTS)) + ("; plus 1-2 edges fully symbolic" if tier == 'thorough' else "") + "; query point and radius always symbolic",
                       max_elmt="None, 1" + (", 2" if tier == 'thorough' else ""))
-    rep.outside = ["rounding", "rtree-indexed InMemMap", "latitude-longitude metric beyond the order logic of SqliteMap.nodes_closeto (the geodesic primitives are C14's subject)", "SqliteMap runs use the parsing SQL shim with the float32 interval contract (replay on the real sqlite3)"]
+    rep.outside = ["rounding", "rtree-indexed InMemMap", "latitude-longitude metric beyond the query logic over stand-ins (the geodesic primitives are C14's subject)", "SqliteMap runs use the parsing SQL shim with the float32 interval contract (replay on the real sqlite3)"]
     rep.assumptions = ["math.sqrt exact", "np.isclose as |a-b|<=atol", "list.sort on tuples of symbolic numbers forks on comparisons"]
     known = set()
     findings = load_findings(PID)
@@ -588,6 +726,11 @@ def replay_file(path):
     import_repo()
     from leuvenmapmatching.map.inmem import InMemMap
     d = json.load(open(path))
+    if d.get('kind') == 'latlon_inmem':
+        g = SHAPES[d['shape']][0]
+        bad = concrete_latlon_inmem(d['query'], g, {n: tuple(d['coords'][str(n)]) for n in g}, tuple(d['loc']), d['radius'], d['max_elmt'])
+        print(bad or 'consistent')
+        return 1 if bad else 0
     graph, kind = SHAPES[d['shape']]
     cc = {n: tuple(d['coords'][str((n))] if str(n) in d['coords'] else d['coords'][n]) for n in graph}
     loc, r = tuple(d['loc']), d['radius']
